@@ -29,11 +29,11 @@ func sc(name, q string, procs, nsteps, dq, dt int) schedScenario {
 
 // catalogue of small sharp drivers (DESIGN.md §1.4)
 func catalogue() []schedScenario {
-	s2 := sc("S2:a/3shards/1series", `a{l="1"}`, 6, 1, 2, 3)
+	s2 := sc("S2:a/3shards/1series", `a{l="1"}`, 6, 1, 3, 4)
 	dist := sc("S10:dist sum by (l)(a)", `sum by (l)(a)`, 2, 2, 1, 2)
 	dist.Case.NDist = 2
 	dist.Case.Dist = []int{0, 1, 0, 1, 0}
-	inst := sc("S11:instant a", `a`, 4, 1, 2, 3)
+	inst := sc("S11:instant a", `a`, 4, 1, 3, 4)
 	inst.Case.W = core.Instant(40000)
 	pp := sc("S12:a/2shards/poolpoints", `a`, 4, 1, 2, 3)
 	pp.PoolPoints = true
@@ -48,14 +48,14 @@ func catalogue() []schedScenario {
 	my.Case.O.Optimizers = ""
 	my.StoreYield = true
 	return []schedScenario{
-		sc("S1:a/2shards", `a`, 4, 2, 2, 3),
+		sc("S1:a/2shards", `a`, 4, 2, 3, 4),
 		s2,
 		sc("S3:rate(a[1m])/2shards", `rate(a[1m])`, 4, 3, 2, 2),
 		sc("S4a:sum by (l)(a)", `sum by (l)(a)`, 4, 2, 2, 2),
-		sc("S4b:sum(a)", `sum(a)`, 2, 2, 2, 3),
+		sc("S4b:sum(a)", `sum(a)`, 2, 2, 3, 3),
 		sc("S5:topk(1,a)", `topk(1, a)`, 2, 2, 2, 2),
 		sc("S6a:a+b", `a + on(l) group_left b`, 2, 2, 1, 2),
-		sc("S6b:a+1", `a + 1`, 2, 2, 2, 3),
+		sc("S6b:a+1", `a + 1`, 2, 2, 3, 3),
 		sc("S6c:clamp_min(a,scalar(b))", `clamp_min(a, scalar(b{l="0"}))`, 2, 2, 1, 2),
 		sc("S7:-a", `-a`, 2, 2, 2, 3),
 		sc("S8:a@10+a", `a @ 10 + a`, 2, 2, 1, 2),
